@@ -4,7 +4,12 @@
 From Coq Require Import ZArith List Bool String.
 From Coq Require Extraction ExtrOcamlBasic.
 From SM Require Import Num Syntax Outcome MathFun Eval Forward Reverse Synth Rules Driver
-  Normalize Routes PyNum.
+  Normalize Routes PyNum Objects Stateful.
+
+(* stable names for definitions whose extracted names would otherwise be numbered *)
+Definition sm_expr_eqb {T} (N : NumOps T) := @eqb T N.
+Definition sm_point_eqb {T} (N : NumOps T) := @point_eqb T N.
+Definition sm_py_eq {T} (N : NumOps T) := @py_eq T N.
 
 Extraction Language OCaml.
 
@@ -15,7 +20,11 @@ Extraction "../ocaml/model.ml"
   fwd rev numeric_partials located_component
   synth_fwd synthetic_partials
   consolidate step_named step fully_reduce reduce_trace bad_label apply_reducers all_rules
-  nfr normalize
+  nfr normalize nfr_trace normalize_trace good_trace
+  sm_expr_eqb sm_point_eqb sm_py_eq show show_point show_partial show_derivative show_differential show_located
+  parse parse_fuel
+  mk_nth_power mk_nth_root mk_exponential mk_logarithm mk_variable op_pow op_add op_sub
+  erase reset_s eval_s run_history pure_call
   partial_as_expression partial_at_late partial_at_early at_via
   derivative_at_late derivative_at_number_late
   differential_early_partials differential_early_component_expr differential_early_component_at
